@@ -83,6 +83,60 @@ theorem source_protocol_is_race_free (limit : Nat) (c : Config) (hc : genConfig 
   injection hc with hc; subst hc
   exact no_data_race limit s h
 
+
+/-! ### the orders matter: weakening any one of them makes a race reachable (the model is not vacuous,
+    and a source change to `relaxed` is a counter-example, not only a failed `gen_is_expected`) -/
+
+/-- the schedule: thread 0 initialises and publishes; thread 1 then loads READY and uses the tables -/
+def tr1 (c : Config) : State :=
+  init.set 0 { pc := afterLoad uninit none c.spinLimit, seen := 0, view := (init.th 0).view || (c.firstLoad.isAcq && false) }
+def tr2 (c : Config) : State :=
+  ({ tr1 c with mo := (tr1 c).mo ++ [Msg.mk inProgress (c.casSuccess.isRel && (((tr1 c).th 0).view || (c.casSuccess.isAcq && false)))] } : State).set 0
+    { pc := .alloc, seen := (tr1 c).mo.length, view := ((tr1 c).th 0).view || (c.casSuccess.isAcq && false) }
+def tr3 (c : Config) : State := (tr2 c).set 0 { ((tr2 c).th 0) with pc := .writes }
+def tr4 (c : Config) : State :=
+  ({ tr3 c with writers := (tr3 c).writers + 1,
+                race := (tr3 c).race || decide (0 < (tr3 c).writers) || decide (0 < (tr3 c).readers) } : State).set 0
+    { ((tr3 c).th 0) with pc := .publish, view := true }
+def tr5 (c : Config) : State :=
+  ({ tr4 c with mo := (tr4 c).mo ++ [Msg.mk ready (c.readyStore.isRel && c.readyAfterWrites && ((tr4 c).th 0).view)] } : State).set 0
+    { ((tr4 c).th 0) with pc := .use, seen := (tr4 c).mo.length }
+def tr6 (c : Config) : State :=
+  (tr5 c).set 1 { pc := afterLoad ready none c.spinLimit, seen := 2,
+                  view := ((tr5 c).th 1).view || (c.firstLoad.isAcq && (c.readyStore.isRel && c.readyAfterWrites && ((tr4 c).th 0).view)) }
+def raceTrace (c : Config) : State :=
+  { tr6 c with readers := (tr6 c).readers + 1, race := (tr6 c).race || !((tr6 c).th 1).view || decide ((tr6 c).writers = 0) }
+
+theorem raceTrace_reachable (c : Config) (hexp : c.casExpectsUninit = true) : Reachable c (raceTrace c) := by
+  have h1 : Reachable c (tr1 c) :=
+    Reachable.step _ _ Reachable.init (Step.firstLoad init 0 0 ⟨uninit, false⟩ rfl (Nat.le_refl _) rfl)
+  have h2 : Reachable c (tr2 c) :=
+    Reachable.step _ _ h1 (Step.casOk (tr1 c) 0 uninit ⟨uninit, false⟩
+      (by simp [tr1, State.set, afterLoad, uninit, ready, failed]) rfl (by simp [hexp]))
+  have h3 : Reachable c (tr3 c) := Reachable.step _ _ h2 (Step.allocOk (tr2 c) 0 (by simp [tr2, State.set]))
+  have h4 : Reachable c (tr4 c) := Reachable.step _ _ h3 (Step.write (tr3 c) 0 (by simp [tr3, State.set]))
+  have h5 : Reachable c (tr5 c) := Reachable.step _ _ h4 (Step.publish (tr4 c) 0 (by simp [tr4, State.set]))
+  have h6 : Reachable c (tr6 c) :=
+    Reachable.step _ _ h5 (Step.firstLoad (tr5 c) 1 2 ⟨ready, c.readyStore.isRel && c.readyAfterWrites && ((tr4 c).th 0).view⟩
+      (by simp [tr5, tr4, tr3, tr2, tr1, State.set, init]) (by simp [tr5, tr4, tr3, tr2, tr1, State.set, init])
+      (by simp [tr5, tr4, tr3, tr2, tr1, State.set, init]))
+  exact Reachable.step _ _ h6 (Step.useTables (tr6 c) 1 (by simp [tr6, State.set, afterLoad, ready, failed, uninit]))
+
+/-- with a relaxed READY store the reader's view does not contain the pointer writes: data race -/
+theorem relaxed_ready_store_races (limit : Nat) :
+    ∃ s, Reachable { expected limit with readyStore := .relaxed } s ∧ s.race = true :=
+  ⟨_, raceTrace_reachable _ rfl, by simp [raceTrace, tr6, tr5, tr4, tr3, tr2, tr1, State.set, init, expected, Ord.isRel, Ord.isAcq]⟩
+
+/-- with a relaxed first load the reader does not acquire the writer's view: data race -/
+theorem relaxed_first_load_races (limit : Nat) :
+    ∃ s, Reachable { expected limit with firstLoad := .relaxed } s ∧ s.race = true :=
+  ⟨_, raceTrace_reachable _ rfl, by simp [raceTrace, tr6, tr5, tr4, tr3, tr2, tr1, State.set, init, expected, Ord.isRel, Ord.isAcq]⟩
+
+/-- with READY stored before the pointer stores (program order) the release carries nothing: data race -/
+theorem early_ready_store_races (limit : Nat) :
+    ∃ s, Reachable { expected limit with readyAfterWrites := false } s ∧ s.race = true :=
+  ⟨_, raceTrace_reachable _ rfl, by simp [raceTrace, tr6, tr5, tr4, tr3, tr2, tr1, State.set, init, expected, Ord.isRel, Ord.isAcq]⟩
+
 /-! ### the global length limit -/
 
 /-- the limit is a single atomic accessed with relaxed loads/stores (no other mutable namespace-scope
